@@ -38,7 +38,12 @@ func DecodeAddress(s string, enc encoder.Encoder) (Address, error) {
 		return nil, nil
 	}
 
-	switch i, found := objcache.Get(s); {
+	// NOTE objcache is shared with DecodePublickeyFromString; address results
+	// are kept under their own key, the result(also the failure) of decoding
+	// the same string as publickey must not be answered here.
+	cachekey := "address:" + s
+
+	switch i, found := objcache.Get(cachekey); {
 	case !found:
 	case i == nil:
 		return nil, nil
@@ -53,12 +58,12 @@ func DecodeAddress(s string, enc encoder.Encoder) (Address, error) {
 	ad, err := decodeAddress(s, enc)
 	if err != nil {
 		err = errors.WithMessage(err, "address")
-		objcache.Set(s, err, 0)
+		objcache.Set(cachekey, err, 0)
 
 		return nil, err
 	}
 
-	objcache.Set(s, ad, 0)
+	objcache.Set(cachekey, ad, 0)
 
 	return ad, nil
 }
